@@ -242,6 +242,9 @@ func guardedReturns(body *ast.BlockStmt) bool {
 	if body == nil || len(body.List) == 0 || len(body.List) > 6 {
 		return false
 	}
+	if switchReturns(body) != nil {
+		return true
+	}
 	for i, st := range body.List {
 		if i == len(body.List)-1 {
 			rs, ok := st.(*ast.ReturnStmt)
@@ -259,8 +262,102 @@ func guardedReturns(body *ast.BlockStmt) bool {
 	return false
 }
 
+// switchReturns: the body is "switch tag { case a, b: return x; ...; default:
+// return y }", optionally followed by a final return that stands for the
+// default.  It returns the switch, or nil.
+func switchReturns(body *ast.BlockStmt) *ast.SwitchStmt {
+	if body == nil || len(body.List) == 0 || len(body.List) > 2 {
+		return nil
+	}
+	sw, ok := body.List[0].(*ast.SwitchStmt)
+	if !ok || sw.Init != nil || sw.Tag == nil {
+		return nil
+	}
+	hasDefault := false
+	for _, st := range sw.Body.List {
+		cc := st.(*ast.CaseClause)
+		if len(cc.Body) != 1 {
+			return nil
+		}
+		rs, ok := cc.Body[0].(*ast.ReturnStmt)
+		if !ok || len(rs.Results) != 1 {
+			return nil
+		}
+		if cc.List == nil {
+			hasDefault = true
+		}
+	}
+	if len(body.List) == 2 {
+		rs, ok := body.List[1].(*ast.ReturnStmt)
+		if !ok || len(rs.Results) != 1 || hasDefault {
+			return nil
+		}
+		return sw
+	}
+	if !hasDefault {
+		return nil
+	}
+	return sw
+}
+
+// evalSwitchReturns evaluates a body accepted by switchReturns.
+func (le *logicEnv) evalSwitchReturns(fn *Func, body *ast.BlockStmt, sw *ast.SwitchStmt, sub map[types.Object]ast.Expr) lval {
+	tag := le.eval(fn, sw.Tag, sub)
+	var dflt ast.Expr
+	if len(body.List) == 2 {
+		dflt = body.List[1].(*ast.ReturnStmt).Results[0]
+	}
+	for _, st := range sw.Body.List {
+		cc := st.(*ast.CaseClause)
+		if cc.List == nil {
+			dflt = cc.Body[0].(*ast.ReturnStmt).Results[0]
+		}
+	}
+	if le.collect {
+		out := le.eval(fn, dflt, sub)
+		out.ok = out.ok && tag.ok
+		deps := append([]string{}, tag.deps...)
+		cs := append([]int64{}, tag.cs...)
+		for _, st := range sw.Body.List {
+			cc := st.(*ast.CaseClause)
+			for _, ce := range cc.List {
+				cv := le.eval(fn, ce, sub)
+				deps = append(deps, cv.deps...)
+				cs = append(cs, cv.cs...)
+				out.ok = out.ok && cv.ok
+			}
+			rv := le.eval(fn, cc.Body[0].(*ast.ReturnStmt).Results[0], sub)
+			out.ok = out.ok && rv.ok
+			out.deps = append(append([]string{}, out.deps...), rv.deps...)
+			out.cs = append(append([]int64{}, out.cs...), rv.cs...)
+		}
+		// the tag is compared with the case values
+		le.group(deps, cs)
+		return out
+	}
+	if !tag.ok {
+		return lval{}
+	}
+	for _, st := range sw.Body.List {
+		cc := st.(*ast.CaseClause)
+		for _, ce := range cc.List {
+			cv := le.eval(fn, ce, sub)
+			if !cv.ok {
+				return lval{}
+			}
+			if cv.isBool == tag.isBool && cv.n == tag.n && cv.b == tag.b {
+				return le.eval(fn, cc.Body[0].(*ast.ReturnStmt).Results[0], sub)
+			}
+		}
+	}
+	return le.eval(fn, dflt, sub)
+}
+
 // evalGuardedReturns evaluates a body accepted by guardedReturns.
 func (le *logicEnv) evalGuardedReturns(fn *Func, body *ast.BlockStmt, sub map[types.Object]ast.Expr) lval {
+	if sw := switchReturns(body); sw != nil {
+		return le.evalSwitchReturns(fn, body, sw, sub)
+	}
 	last := body.List[len(body.List)-1].(*ast.ReturnStmt).Results[0]
 	if le.collect {
 		out := le.eval(fn, last, sub)
